@@ -61,20 +61,34 @@ def run(chk):
     if not (b and bi and h):
         return
     # ---- R1 total
-    ms = [m for m in tables.fn_tables(prog, PR) if "Result<" in m.get("scrut_ty", "")]
-    chk.floor("proxy_request result table", len(ms), 1)
-    if ms:
-        rows = core.match_table(ms[0])
-        ok_arm = err_arm = False
-        for keys, guard, val, line, arm in rows:
-            for k in keys:
-                if k[0] == "ctor" and tables.norm_path(k[1]) == "Ok":
-                    bind = arm["pat"]["pats"][0].get("name") if arm["pat"].get("pats") else None
-                    ok_arm = val == ("local", bind)
-                if k[0] == "ctor" and tables.norm_path(k[1]) == "Err":
-                    err_arm = desc_hir_502(val)
-        chk.ob("R1.total", PR, "Ok(response) -> that response", ok_arm, "the upstream's response is not passed through unchanged")
-        chk.ob("R1.total", PR, "Err(_) -> 502 Bad Gateway", err_arm, "an upstream failure is not answered with 502")
+    # decided on the MIR of proxy_request: what is returned under which outcome of proxy_request_internal
+    ok_arm = err_arm = False
+    shape = "?"
+
+    def is_502(d):
+        return desc_contains(d, lambda y: y[0] == "variant" and y[2] == "BadGateway")
+    d0 = core.describe(prog, b, 0)
+    if d0[0] == "call" and core.re.search(r"Result::<T, E>::unwrap_or_else$", d0[1]) and desc_contains(d0[2][0], lambda y: y[0] == "call" and y[1].endswith("proxy_request_internal")):
+        shape = "unwrap_or_else"
+        ok_arm = d0[2][0][0] == "call" and d0[2][0][1].endswith("proxy_request_internal")
+        cl = d0[2][1]
+        if cl[0] == "closure" and cl[1] in prog.bodies:
+            err_arm = is_502(core.describe(prog, prog.bodies[cl[1]], 0))
+    else:
+        shape = "match"
+        oks, errs = [], []
+        for d in b.defs().get(0, []):
+            labs = [(lab, dd) for s_, lab, dd, info in core.guards_dominating(prog, b, d[0]) if desc_contains(dd, lambda y: y[0] == "call" and y[1].endswith("proxy_request_internal"))]
+            val = ("call", d[3].get("resolved") or d[3].get("callee"), [core.describe(prog, b, a) for a in d[3]["args"]], d[0]) if d[2] == "call" else \
+                (core.describe_rv(prog, b, d[3]["rv"]) if d[3]["rv"]["k"] != "use" else core.describe(prog, b, d[3]["rv"]["o"]))
+            if any(l == "Ok" for l, _ in labs):
+                oks.append(val)
+            elif any(l == "Err" for l, _ in labs):
+                errs.append(val)
+        ok_arm = bool(oks) and all(v[0] == "field" and desc_contains(v, lambda y: y[0] == "call" and y[1].endswith("proxy_request_internal")) and not is_502(v) for v in oks)
+        err_arm = bool(errs) and all(is_502(v) for v in errs)
+    chk.ob("R1.total", PR, "Ok(response) -> that response", ok_arm, f"the upstream's response is not passed through unchanged ({shape})")
+    chk.ob("R1.total", PR, "Err(_) -> 502 Bad Gateway", err_arm, f"an upstream failure is not answered with 502 ({shape})")
     # the logger / monitor / HTTP-date code reached from proxy_handler is driven by the system clock, not by the upstream
     # or the client; its arithmetic is in C18's scope and is cut out of this inventory (listed in the evidence)
     CUT = ("humphrey_server::server::logger::", "humphrey::http::date::", "humphrey::monitor::")
